@@ -263,7 +263,8 @@ def run_instance(prog, inst, tier, seed, deadline):
             args = native_replay(l.model, I)
             label = l.msg.split('@')[0]
             kinds = ''.join({0: 'x', 1: 'k', 2: 's', 3: 'c', 4: '.', 5: 'E'}[e[1]] for e in I.h_world.log)
-            return dict(label=l.msg, scenario=inst['name'], steps=args, detail=l.payload, key='%s' % label, events=kinds)
+            return dict(label=l.msg, scenario=inst['name'], steps=args, detail=l.payload, events=kinds,
+                        key='%s%s' % (label, (':stop+continue-between-polls' if ('c' in kinds and 's' in kinds) else '') if label == 'stopped-flag' else ''))
         def on_panic(l, I):
             return dict(label='crash', scenario=inst['name'], steps=native_replay(l.model, I), key='crash:' + str(l.msg)[:40])
         return hsupport.run_paths(prog, body(inst), deadline, on_ok=on_ok, on_violation=on_violation, on_panic=on_panic, step_budget=1_500_000,
